@@ -2,8 +2,10 @@
    loader and export on it (in process), one traced clean run of the built `iwe normalize` and
    a list of traced fault runs (error / SIGKILL injected at a write, rename or open, or a file
    size limit), each with the directory snapshot taken afterwards.
-   Correspondence: the model loader, the model write sequence (repaired shape) and the model
-   file-system semantics against what was observed.  Property: the executable form of the
+   Correspondence: the model loader, the model write sequence (repaired shape: the temporary
+   name is the first free candidate of the model file system at that point, every existing
+   candidate before it is probed once and answers EEXIST) and the model file-system semantics
+   against what was observed.  Property: the executable form of the
    C19 theorems, evaluated on the snapshots only. *)
 From IweV Require Import Str RelPath Harness.
 From IweV Require Export Fs.
@@ -11,9 +13,10 @@ Local Open Scope string_scope.
 Local Open Scope list_scope.
 Local Open Scope N_scope.
 
-(* a traced system call on a path under the library: it succeeded, or returned an error
-   (and then had no effect) *)
-Inductive ev := Done (o : op) | Failed (o : op).
+(* a traced system call on a path under the library: it succeeded; or it is an exclusive
+   create that returned EEXIST (the answer of the kernel to [OpenNew] on an existing path: no
+   effect); or it returned another error (and then had no effect) *)
+Inductive ev := Done (o : op) | Busy (o : op) | Failed (o : op).
 
 Record frun := FRun {
   f_kind : N;      (* 0 clean; 1 error at k-th write; 2 SIGKILL on entering k-th write;
@@ -49,10 +52,55 @@ Definition obytes_eqb := option_eqb seqb.
 Definition fs_eqb (a b : fs) : bool :=
   forallb (fun p => obytes_eqb (lookup p a) (lookup p b)) (map fst a ++ map fst b).
 
+(* the operations that were carried out, in the model's reading: [OpenNew p] stands for the
+   call whatever it answered — [apply_op] creates p or, when p exists, leaves everything as it
+   is ([answers_ok] below checks that the kernel gave the answer the model state predicts) *)
 Definition done_ops (tr : list ev) : list op :=
-  flat_map (fun e => match e with Done o => [o] | Failed _ => [] end) tr.
+  flat_map (fun e => match e with Done o | Busy o => [o] | Failed _ => [] end) tr.
 Definition all_done (tr : list ev) : bool :=
-  forallb (fun e => match e with Done _ => true | Failed _ => false end) tr.
+  forallb (fun e => match e with Done _ | Busy _ => true | Failed _ => false end) tr.
+
+(* an exclusive create succeeded exactly when the path did not exist in the replayed model
+   state, and answered EEXIST exactly when it did; nothing else answers EEXIST *)
+Fixpoint answers_ok (tr : list ev) (s : fs) : bool :=
+  match tr with
+  | [] => true
+  | Done (OpenNew p) :: r =>
+      match lookup p s with None => answers_ok r (apply_op s (OpenNew p)) | Some _ => false end
+  | Busy (OpenNew p) :: r =>
+      match lookup p s with Some _ => answers_ok r s | None => false end
+  | Busy _ :: _ => false
+  | Done o :: r => answers_ok r (apply_op s o)
+  | Failed _ :: r => answers_ok r s
+  end.
+
+Definition op_eqb (a b : op) : bool :=
+  match a, b with
+  | OpenTrunc p, OpenTrunc q | OpenNew p, OpenNew q | Sync p, Sync q
+  | Close p, Close q | Unlink p, Unlink q | Other p, Other q => seqb p q
+  | Append p c, Append q d => seqb p q && seqb c d
+  | Rename p p', Rename q q' => seqb p q && seqb p' q'
+  | _, _ => false
+  end.
+
+(* [ops] = [pre ++ rest]: the rest *)
+Fixpoint strip_ops (pre ops : list op) : option (list op) :=
+  match pre with
+  | [] => Some ops
+  | a :: pre' =>
+      match ops with
+      | b :: ops' => if op_eqb a b then strip_ops pre' ops' else None
+      | [] => None
+      end
+  end.
+
+(* [ops] is a proper prefix of [l] *)
+Fixpoint proper_prefix (ops l : list op) : bool :=
+  match ops, l with
+  | [], _ :: _ => true
+  | a :: ops', b :: l' => op_eqb a b && proper_prefix ops' l'
+  | _, _ => false
+  end.
 
 (* ---------- shape of an observed operation sequence ------------------------------------------- *)
 
@@ -63,23 +111,39 @@ Fixpoint take_appends (p : path) (ops : list op) (acc : bytes) : bytes * list op
   | _ => (acc, ops)
   end.
 
-(* complete groups `OpenTrunc t; Append t ..; Close t; Rename t p` with t = tmp_of p
-   (repaired shape): the (target, bytes) pairs and what could not be parsed *)
-Fixpoint parse_groups (fuel : nat) (ops : list op) : list (path * bytes) * list op :=
+(* the note a group is for, read off the first name it tries: `<note>.tmp` (candidate 0) *)
+Definition target_of (c0 : path) : option path := strip_suffix TMP c0.
+
+(* complete groups `create_ops s p; Append t ..; Close t; Rename t p` with t = tmp_of s p, where s
+   is the model file system when the group starts (repaired shape: the model's own [create_ops],
+   i.e. one open per existing candidate and then the first free one): the (target, bytes) pairs,
+   what could not be parsed, and the model state there *)
+Fixpoint parse_groups (fuel : nat) (ops : list op) (s : fs) : list (path * bytes) * list op * fs :=
   match fuel with
-  | O => ([], ops)
+  | O => ([], ops, s)
   | S f =>
       match ops with
-      | OpenTrunc t :: r =>
-          let '(b, r1) := take_appends t r "" in
-          match r1 with
-          | Close t1 :: Rename t2 p :: r2 =>
-              if seqb t1 t && seqb t2 t && seqb t (tmp_of p)
-              then let '(gs, rest) := parse_groups f r2 in ((p, b) :: gs, rest)
-              else ([], ops)
-          | _ => ([], ops)
+      | OpenNew c0 :: _ =>
+          match target_of c0 with
+          | Some p =>
+              let t := tmp_of s p in
+              match strip_ops (create_ops s p) ops with
+              | Some r =>
+                  let '(b, r1) := take_appends t r "" in
+                  match r1 with
+                  | Close t1 :: Rename t2 p' :: r2 =>
+                      if seqb t1 t && seqb t2 t && seqb p' p
+                      then let used := firstn (length ops - length r2) ops in
+                           let '(gs, rest, s') := parse_groups f r2 (run_ops used s) in
+                           ((p, b) :: gs, rest, s')
+                      else ([], ops, s)
+                  | _ => ([], ops, s)
+                  end
+              | None => ([], ops, s)
+              end
+          | None => ([], ops, s)
           end
-      | _ => ([], ops)
+      | _ => ([], ops, s)
       end
   end.
 
@@ -90,50 +154,62 @@ Definition expected_writes (c : case) : list (path * bytes) :=
 Fixpoint nodup_paths (l : list (path * bytes)) : bool :=
   match l with [] => true | x :: r => negb (mem seqb (fst x) (map fst r)) && nodup_paths r end.
 
-(* the clean run is exactly `normalize_ops .. Repaired order` for some order and chunking *)
+(* the clean run is exactly `normalize_ops .. Repaired order (c_before c)` for some order and
+   chunking *)
 Definition clean_shape (c : case) : bool :=
   let ops := done_ops (f_trace (c_clean c)) in
-  let '(gs, rest) := parse_groups (S (length ops)) ops in
+  let '(gs, rest, _) := parse_groups (S (length ops)) ops (c_before c) in
   match rest with [] => true | _ => false end &&
   all_done (f_trace (c_clean c)) && set_eqb pair_eqb gs (expected_writes c).
 
 (* a fault run is a prefix of such a sequence, optionally followed by the removal of the
-   temporary file in progress (error path); at most one call failed, and only close/unlink
-   follow it *)
+   temporary file in progress (error path); at most one call failed (EEXIST answers of the
+   probing opens are not failures), and only close/unlink follow it *)
 Fixpoint after_fail_ok (tr : list ev) : bool :=
   match tr with
   | [] => true
-  | Done _ :: r => after_fail_ok r
+  | Done _ :: r | Busy _ :: r => after_fail_ok r
   | Failed _ :: r =>
       forallb (fun e => match e with
                         | Done (Close _) | Done (Unlink _) | Failed (Close _) | Failed (Unlink _) => true
                         | _ => false end) r
   end.
 
-Definition partial_group_ok (c : case) (gs : list (path * bytes)) (rest : list op) : bool :=
+(* the group in progress when the run stopped, in model state s: some of the opens of
+   [create_ops s p] (nothing created yet, so nothing to remove), or all of them and then writes
+   to t = tmp_of s p, possibly closed, possibly removed again (error path: only ever t) *)
+Definition partial_group_ok (c : case) (gs : list (path * bytes)) (rest : list op) (s : fs) : bool :=
   match rest with
   | [] => true
-  | OpenTrunc t :: r =>
-      let '(b, r1) := take_appends t r "" in
-      existsb (fun pb => seqb t (tmp_of (fst pb)) && negb (mem seqb (fst pb) (map fst gs)) &&
-                 starts_with b (snd pb) &&
-                 match r1 with
-                 | [] => true
-                 | [Unlink t1] => seqb t1 t
-                 | [Close t1] => seqb t1 t && seqb b (snd pb)
-                 | [Close t1; Unlink t2] => seqb t1 t && seqb t2 t
-                 | _ => false
-                 end) (expected_writes c)
-  | [Unlink t] =>   (* the open of the temporary file failed; a stale one was removed *)
-      existsb (fun pb => seqb t (tmp_of (fst pb)) && negb (mem seqb (fst pb) (map fst gs))) (expected_writes c)
+  | OpenNew c0 :: _ =>
+      match target_of c0 with
+      | Some p =>
+          let t := tmp_of s p in
+          existsb (fun pb => seqb p (fst pb) && negb (mem seqb p (map fst gs)) &&
+                     (proper_prefix rest (create_ops s p) ||
+                      match strip_ops (create_ops s p) rest with
+                      | Some r =>
+                          let '(b, r1) := take_appends t r "" in
+                          starts_with b (snd pb) &&
+                          match r1 with
+                          | [] => true
+                          | [Unlink t1] => seqb t1 t
+                          | [Close t1] => seqb t1 t && seqb b (snd pb)
+                          | [Close t1; Unlink t2] => seqb t1 t && seqb t2 t
+                          | _ => false
+                          end
+                      | None => false
+                      end)) (expected_writes c)
+      | None => false
+      end
   | _ => false
   end.
 
 Definition fault_shape (c : case) (r : frun) : bool :=
   let ops := done_ops (f_trace r) in
-  let '(gs, rest) := parse_groups (S (length ops)) ops in
+  let '(gs, rest, s) := parse_groups (S (length ops)) ops (c_before c) in
   subset pair_eqb gs (expected_writes c) && nodup_paths gs &&
-  partial_group_ok c gs rest && after_fail_ok (f_trace r).
+  partial_group_ok c gs rest s && after_fail_ok (f_trace r).
 
 (* ---------- the property on snapshots ---------------------------------------------------------- *)
 
@@ -174,11 +250,15 @@ Definition old_or_newb (c : case) (r : frun) : bool :=
 Definition p_atomic (c : case) : bool := forallb (old_or_newb c) (c_faults c).
 
 (* 4: after a fault nothing else appears or disappears, except that a *killed* run may leave
-   the temporary sibling `<note>.tmp` of a note (which no loader reads: its extension is tmp) *)
+   one file: the temporary sibling of one note, under the first of its candidate names
+   `<note>.tmp`, `<note>.1.tmp`, .. that did not exist before the run (which no loader reads:
+   its extension is tmp).  This is the third clause of C19_atomic. *)
 Definition no_strangers (c : case) (r : frun) : bool :=
-  forallb (fun q => mem seqb q (map fst (c_before c)) ||
-                    (N.eqb (f_status r) 2 && existsb (fun p => seqb q (tmp_of p)) (note_paths c)))
-          (map fst (f_after r)) &&
+  match filter (fun q => negb (mem seqb q (map fst (c_before c)))) (map fst (f_after r)) with
+  | [] => true
+  | [q] => N.eqb (f_status r) 2 && existsb (fun p => seqb q (tmp_of (c_before c) p)) (note_paths c)
+  | _ => false
+  end &&
   list_eqb seqb (f_dirs r) (c_dirs c).
 Definition p_no_strangers (c : case) : bool := forallb (no_strangers c) (c_faults c).
 
@@ -189,17 +269,6 @@ Definition p_no_strangers (c : case) : bool := forallb (no_strangers c) (c_fault
 Definition truncates_in_place (c : case) : bool :=
   existsb (fun r => existsb (fun e => match e with
                                       | Done (OpenTrunc p) => mem seqb p (note_paths c)
-                                      | _ => false end) (f_trace r))
-          (c_clean c :: c_faults c).
-
-(* 3 (input + history): a file of the tree already carries the temporary name of a note and
-   the implementation used it *)
-Definition uses_clashing_tmp (c : case) : bool :=
-  tmp_clash (c_tree c) &&
-  existsb (fun r => existsb (fun e => match e with
-                                      | Done (OpenTrunc q) | Done (Rename q _) | Done (Unlink q) =>
-                                          mem seqb q (map fst (c_before c)) &&
-                                          existsb (fun p => seqb q (tmp_of p)) (note_paths c)
                                       | _ => false end) (f_trace r))
           (c_clean c :: c_faults c).
 
@@ -218,18 +287,19 @@ Definition run (c : case) : verdict :=
     (* 4: the clean run's operations are normalize_ops (repaired shape) in some order *)
     flag 4 (clean_shape c) ++
     (* 5: model file-system semantics: replaying the observed operations gives the snapshot *)
-    flag 5 (fs_eqb (run_ops (done_ops (f_trace (c_clean c))) (c_before c)) (f_after (c_clean c))) ++
+    flag 5 (fs_eqb (run_ops (done_ops (f_trace (c_clean c))) (c_before c)) (f_after (c_clean c)) &&
+            answers_ok (f_trace (c_clean c)) (c_before c)) ++
     (* 6: every fault run is a crash prefix / error stop of such a sequence *)
     flag 6 (forallb (fault_shape c) (c_faults c)) ++
     (* 7: semantics on the fault runs *)
-    flag 7 (forallb (fun r => fs_eqb (run_ops (done_ops (f_trace r)) (c_before c)) (f_after r)) (c_faults c)) in
+    flag 7 (forallb (fun r => fs_eqb (run_ops (done_ops (f_trace r)) (c_before c)) (f_after r) &&
+                              answers_ok (f_trace r) (c_before c)) (c_faults c)) in
   let prop :=
     flag 1 (p_in_place c) ++ flag 2 (p_nothing_else c) ++
     flag 3 (p_atomic c) ++ flag 4 (p_no_strangers c) in
   let cls :=
     (if truncates_in_place c then [1] else []) ++
-    (if irregular t then [2] else []) ++
-    (if uses_clashing_tmp c then [3] else []) in
+    (if irregular t then [2] else []) in
   let nontriv :=
     Nat.leb 2 (length (load t)) && Nat.ltb (length (load t)) (length s0) &&
     existsb (fun l => contains_char SEP (l_key l)) (load t) &&
